@@ -196,6 +196,26 @@ def small_functions(prog, rep):
     comps = [r.value for r in rets if isinstance(r.value, ast.ListComp)]
     ok = False
     why = "not two comprehensions"
+    if len(comps) == 1 and len(comps[0].generators) == 1 and len(comps[0].generators[0].ifs) == 1 and norm(comps[0].generators[0].iter) == fi.params[0] and norm(comps[0].elt) == norm(comps[0].generators[0].target):
+        # one comprehension keeping the events whose test EQUALS `not exclude`: for exclude=True that is exactly the complement
+        from ..trace import deep as _deep2
+
+        cnd = comps[0].generators[0].ifs[0]
+        excl = fi.params[3] if len(fi.params) > 3 else "exclude"
+        if isinstance(cnd, ast.Compare) and len(cnd.ops) == 1 and isinstance(cnd.ops[0], (ast.Eq, ast.Is)):
+            sides = [cnd.left, cnd.comparators[0]]
+            keep = [x for x in sides if norm(_deep2(x, fi)) == f"not {excl}"]
+            test = [x for x in sides if x not in keep]
+            boolean = len(test) == 1 and (isinstance(test[0], ast.Compare) or (isinstance(test[0], ast.BoolOp) and all(isinstance(v, ast.Compare) for v in test[0].values)) or (isinstance(test[0], ast.Call) and norm(test[0].func) == "bool"))
+            if len(keep) == 1 and boolean:
+                ok = True
+            else:
+                why = f"the single filter `{norm(cnd)}` does not compare a boolean test with `not {excl}`"
+        else:
+            why = f"the single filter `{norm(cnd)}` is not `<test> == (not exclude)`"
+        rep.check(ok, "SHAPE", fi.short, "complementary filters", "one comprehension: <boolean test> == (not exclude)", why, fi.loc())
+        comps = []
+        ok = None
     if len(comps) == 2 and all(len(c.generators) == 1 and len(c.generators[0].ifs) == 1 and norm(c.generators[0].iter) == fi.params[0] and norm(c.elt) == norm(c.generators[0].target) for c in comps):
         conds = []
         for c in comps:
@@ -218,7 +238,8 @@ def small_functions(prog, rep):
                 if not neg:
                     ok = False
                     why = "exclude=True returns the matching events"
-    rep.check(ok, "SHAPE", fi.short, "complementary filters", "same list, same predicate, opposite polarity", why, fi.loc())
+    if ok is not None:
+        rep.check(ok, "SHAPE", fi.short, "complementary filters", "same list, same predicate, opposite polarity", why, fi.loc())
     pred = fi.nested.get("predicate")
     if pred is not None:
         t = norm(pred.node.body[-1])
